@@ -1,5 +1,6 @@
 """C10 - every pickle step has a definite type."""
 from . import compiler_rules as cr
+from . import misc_rules as ms
 from . import matcher_rules as mr
 from . import dialect_rules as dr
 
@@ -21,3 +22,5 @@ def run(rep):
     cr.rule_input(rep, "C10.isolation")
     # the table: a step keyword listed under two roles of one dialect is ambiguous (type Unknown); only '* ' may be
     dr.rule_data(rep, "C10.data")
+    # no hidden state: what the property promises for one use must hold for every later use as well
+    ms.rule_stateless(rep, "C10")
